@@ -216,4 +216,3 @@ Proof.
   destruct (T H1 H2 k Hk) as (_ & j & Ej & Ev). exists j. split; assumption.
 Qed.
 Transparent hx_acts RefineNet.nrun HappyLive.deliveredb.
-Print Assumptions c02_happy_network_all_decide_example.
